@@ -659,7 +659,8 @@ def compare_generations(rep, p1, p2, s1=None):
                     rep.add('second-generation-folder-entry-duplicated', 'manifest of the second package repeats %r' % extra)
             elif s1 is not None and not missing and all((e[0].endswith(u'/') and e in m1) or (e[0].endswith(u'settings.xml') and nested_at(e[0])) for e in extra):
                 rep.add('nested-section-element', 'manifest of the second package lists %r' % [e for e in extra if not e[0].endswith(u'/')])
-                rep.add('second-generation-folder-entry-duplicated', 'manifest of the second package repeats %r' % [e for e in extra if e[0].endswith(u'/')])
+                if [e for e in extra if e[0].endswith(u'/')]:
+                    rep.add('second-generation-folder-entry-duplicated', 'manifest of the second package repeats %r' % [e for e in extra if e[0].endswith(u'/')])
             elif sorted(m1) == sorted(m2):
                 rep.add('second-generation-manifest-order', 'same entries, other order')
             else:
@@ -719,6 +720,54 @@ def generator_check(rep, p1):
         rep.add('generator-not-this-library', 'generator says %r' % txt)
 
 
+def wire_forest(kids):
+    return ' '.join([str(len(kids))] + [X.wire_tree(k) for k in kids])
+
+
+def save_tree_lines(s1, p1, folder=u''):
+    """the `savetrees` request for one (sub-)document: its sections as built (before save) + the automatic styles the
+    real save selected for each part (by name, read from the saved parts: C10's subject, a parameter of the model)"""
+    import odf.namespaces
+    S = L.sections_of(p1, folder)
+    def used(sec):
+        names = [L.style_name(k) for k in (sec[4] if sec else []) if k[0] == 'E']
+        pool = list(s1['automatic-styles'])
+        out = []
+        for n in names:
+            for k in pool:
+                if k[0] == 'E' and L.style_name(k) == n:
+                    out.append(k); pool.remove(k); break
+        return out
+    secs = [s1['meta'], s1['scripts'], s1['font-face-decls'], s1['settings'], s1['styles'], [], s1['master-styles'], s1['body'],
+            used(S.content_auto), used(S.styles_auto)]
+    return 'savetrees ' + enc_str(odf.namespaces.TOOLSVERSION) + ' ' + ' '.join(wire_forest(f) for f in secs), S
+
+
+def correspond_save(chk, drv, s1, p1, case, folder=u''):
+    line, S = save_tree_lines(s1, p1, folder)
+    ans = drv.ask(line)
+    chk.corr()
+    if not ans.startswith('ok '):
+        chk.corr_diff(case, 'saved', ans, 'savetrees'); return
+    parts = ans[3:].split(' | ')
+    for name, w in zip((u'content.xml', u'styles.xml', u'meta.xml', u'settings.xml'), parts):
+        real = S.roots.get(name)
+        if name == u'meta.xml' and folder:
+            continue                      # a sub-document has no meta.xml of its own
+        if w == '-':
+            if real is not None:
+                chk.corr_diff(case, 'settings.xml written', 'model: not written', 'is settings.xml written?')
+            continue
+        model = X.unwire_tree(w.split())
+        if real is None:
+            chk.corr_diff(case, '%s missing' % name, 'model writes it', 'which parts are written'); continue
+        if X.has_discouraged(model):
+            chk.count('corr_save_skipped_discouraged'); continue
+        a = X.canon(real); b = X.canon(model)
+        if a != b:
+            chk.corr_diff(case, X.first_diff(a, b), 'model differs', 'tree of the saved %s%s (real vs model contentTree/stylesTree/metaTree/settingsTree)' % (folder, name))
+
+
 def run_recipe(V, rec, tmpdir):
     """-> (report, pkg1 bytes, loaded doc, snapshot before)"""
     rep = Rep()
@@ -769,6 +818,9 @@ def run(chk, replay=None):
             # correspondence: the recorded SAX streams of the saved parts through the model vs the loaded document
             p1 = L.read_pkg(raw1)
             key = {'doc': i, 'class': rec['class']}
+            correspond_save(chk, drv, s1, p1, key)
+            for k, sub in enumerate(s1['objects']):
+                correspond_save(chk, drv, sub, p1, dict(key, object=k + 1), u'Object %d/' % (k + 1))
             L.correspond_document(chk, drv, p1, u'', d2._loaded_sections[0], key, rng=chk.rng if i % 2 else None)
             for k, sub in enumerate(d2.childobjects):
                 L.correspond_document(chk, drv, p1, u'Object %d/' % (k + 1), d2._loaded_sections[k + 1], dict(key, object=k + 1),
